@@ -419,6 +419,8 @@ def real_programs(ck: Check):
             u = p[4]
         elif mode == 5.0 and abs(state[0]) > p[3]:
             u = p[4]
+        elif mode == 6.0:
+            u = u + p[4] * t          # genuinely time-dependent control
         dest[0] = u
 
     bads = [1e50, math.nan, INF, -INF, -1e10, 1e10, -3e12]
@@ -432,6 +434,9 @@ def real_programs(ck: Check):
             yield "lin:stable", [1.0, -0.5], lin_eq, lin_ctrl, P(k=0.5), 1, steps, mt, True, (1.0, -1.0)
     for a, k in ((0.0, 0.0), (-1.0, 0.0), (0.5, 1.0), (0.25, 0.0), (-2.0, 1.0), (1.0, 1.0)):
         yield "lin:analytic", [rng.choice([1.0, -2.0, 0.5]), a], lin_eq, lin_ctrl, P(k=k), 1, 33, 4.0, True, None
+    for val in (0.25, -1.0, 3.0):
+        yield "lin:timedep", [1.0, -0.5], lin_eq, lin_ctrl, P(k=0.5, mode=6.0, val=val), 1, 17, 4.0, True, None
+        yield "lin:timedep", [0.5, 0.25], lin_eq, lin_ctrl, P(k=1.0, mode=6.0, val=val), 1, 9, 2.0, True, None
     for bad in bads:
         yield "bad:always", [1.0, -0.5], lin_eq, lin_ctrl, P(mode=3.0, val=bad), 1, 9, 4.0, True, None
         for T in (0.5, 3.0, 3.9999):
@@ -467,6 +472,10 @@ def real_programs(ck: Check):
         dest[0] = 0.0
     yield "stiff:noise", [0.0], noise_eq, zero_ctrl, None, 1, 100, 50.0, True, None
 
+    def noise_all_eq(state, t, _c, out):   # gives up near t = 1 in every cycle: all 5 cycles fail
+        out[0] = 9e9 * math.sin(1e15 * t) if t > 100.0 else 0.0
+    yield "stiff:noise5", [0.0], noise_all_eq, zero_ctrl, None, 1, 1000, 2000.0, True, None
+
     # --- random linear programs --------------------------------------------------------------
     for _ in range(80 if quick else 600):
         a = rng.choice([-2.0, -0.5, 0.0, 0.5, 1.0, 4.0, 25.0])
@@ -491,9 +500,17 @@ def real_programs(ck: Check):
     from moptipyapps.dynamic_control.systems.three_coupled_oscillators import make_3_couple_oscillators
     systems = [make_stuart_landau(3), make_lorenz(3)] + ([] if quick else [make_3_couple_oscillators(3)])
     for system in systems:
-        ctrls = [linear(system), quadratic(system)]
+        ctrls = []
+        for mk in ([linear, quadratic] if quick else [linear, quadratic, cubic]):
+            try:
+                ctrls.append(mk(system))
+            except ValueError:      # e.g. no polynomial controllers for the 6-dimensional oscillators
+                ck.count("real:bundled:no-controller")
         if not quick:
-            ctrls += [cubic(system), *list(anns(system))[:3], *predefined(system)]
+            try:
+                ctrls += [*list(anns(system))[:3], *predefined(system)]
+            except ValueError:
+                ck.count("real:bundled:no-controller")
         elif system.state_dims == 2:
             ctrls += [cubic(system), list(anns(system))[1]]
         for ctrl in ctrls:
@@ -512,7 +529,10 @@ def check_env_assumptions(ck: Check, rec: Recorder, steps, np, case):
     for c in rec.cycles:
         T = c["T"]
         evs = c["pre"] + [e for s in c["steps"] for e in s["evals"]]
-        ck.spec(all(e["t"] <= T for e in evs), "assume_evals_le", f"RK45 evaluated beyond t_bound={T}", case)
+        ck.spec(all(e["t"] <= np.nextafter(T, INF) for e in evs), "assume_evals_le",
+                f"RK45 evaluated more than one ulp beyond t_bound={T}", case)
+        if any(e["t"] > T for e in evs):
+            ck.count("real:eval_one_ulp_beyond_bound")
         if T is not None and T > 0:
             g = np.linspace(0.0, T, steps)
             ck.spec(len(g) == steps and g[0] == 0.0 and all(g[i] < g[i + 1] for i in range(steps - 1))
@@ -662,8 +682,8 @@ def run_j(ck: Check, ode_mod, np, ops, expect, real_jobs):
         ck.case(line, nontrivial=len(M) >= 2)
     # figure of merit of real simulations (floats are not dyadic-friendly: tolerance, a test)
     for (label, start, res, n, cdim, steps, mt, extra, params, case) in real_jobs:
-        if res.shape[0] < 2:
-            continue
+        if res.shape[0] < 2 or not np.isfinite(res).all():
+            continue   # (a non-finite entry is already a violation of the row specification)
         for use, gamma in ((-1, 0.1), (1, 0.5)):
             j = float(ode_mod.j_from_ode(res, n, use, gamma))
             M = [[Fraction(float(v)) for v in r] for r in res]
@@ -677,6 +697,8 @@ def run_j(ck: Check, ode_mod, np, ops, expect, real_jobs):
 # --------------------------------------------------------------------------- numeric tests (labelled as tests)
 def numeric_tests(ck: Check, ode_mod, np, real_jobs):
     for (label, start, res, n, cdim, steps, mt, extra, params, case) in real_jobs:
+        if not np.isfinite(res).all():
+            continue
         if label in ("lin:analytic", "lin:stable") and res.shape[0] == steps and steps >= 2:
             a = start[1] - float(params[0])            # x' = (a - k) x + bias, bias = 0
             x0 = start[0]
@@ -835,6 +857,7 @@ def check(ck: Check) -> None:
                "a case is one protocol line, distinct by line hash; non-trivial = a simulation / a matrix with >= 2 rows")
     ck.assumptions += [
         "scipy RK45 (stepping, status, dense output) is a recorded input of the model; its own termination and accuracy are runtime",
+        "RK45 evaluates the right-hand side at times <= nextafter(t_bound, inf) (its last stage t+(t_bound-t) can round one ulp up; checked on every recorded run)",
         "controller/equations are pure functions writing every output entry; float results are inputs of the model (V = finite|nan|±inf)",
         "np.linspace(0, T, steps) is strictly increasing from 0.0 to T with `steps` entries (checked on every returned array)",
         "the two shrink formulas and np.nextafter are evaluated in floats by the harness from the operands the model computed (compared with the next recorded t_bound)",
